@@ -572,7 +572,10 @@ def run(ctx, prj: Project):
         if ctx.count("R1") < ctx.floors.get("R1", 0):
             ctx.info(f"R1: {ctx.count('R1')} set iterations recognised in this form of the code; inside the engine R8 decides")
             ctx.floors.pop("R1", None)
-    rule_R3(ctx, prj, fns, r)
+    # R3 reads the receivers of accept()/is_open() syntactically; the evaluated selection rule (R2) already shows whether the
+    # predicates Pattern.consume calls are per-attempt copies (no call reached the automaton's shared predicate objects)
+    ctx.complement("R3", lambda: rule_R3(ctx, prj, fns, r), decided=bool(r.copies_predicates) and r.scenarios == 32, demote=True,
+                   by="the evaluated Pattern.consume (every accept()/is_open() call of the 32 scenarios reached a copy)")
     rule_R4(ctx, prj, fns)
     rule_R5(ctx, prj)
     rule_R6(ctx, prj)
